@@ -55,6 +55,10 @@ pub fn rerun(line: &str) -> Option<String> {
             let o = crate::common::Opts { ecl: optn(e), mode: optn(m), version: optn(v), mask: optn(k) };
             Some(crate::pixops::pixframe_line(&unhex(hx), o, &crate::svgops::parse(ops)?))
         }
+        ["pixh", hx, e, m, v, k, ops, hist] => {
+            let o = crate::common::Opts { ecl: optn(e), mode: optn(m), version: optn(v), mask: optn(k) };
+            Some(crate::pixops::pixh_line(&unhex(hx), o, &crate::svgops::parse(ops)?, &crate::pixops::parse_fits(hist)?))
+        }
         ["pix", hx, e, m, v, k, ops, fw, fh] => {
             let o = crate::common::Opts { ecl: optn(e), mode: optn(m), version: optn(v), mask: optn(k) };
             Some(crate::pixops::pix_line(&unhex(hx), o, &crate::svgops::parse(ops)?, fw.parse().ok(), fh.parse().ok()))
